@@ -238,6 +238,24 @@ Example C03_captie_example :
   cap_nonneg (mk_config true (tie_tables (tie_example 32)) true 0 0 0).
 Proof. exact tie_example_ok. Qed.
 
+(* ---- the tie to the source text: the reading side of the usage ledger --------------------------------------
+   gen/SrcSched.v is produced on every run by harness/srcgen from the *current source text* of
+   `_ResourceUsage.__get_key` and `_ResourceUsage.reserved` (src/pjplan/schedule.py).  For every ledger the translated
+   method returns the amount that the model subtracts from the calendar capacity ([used]: everybody's reservations of
+   the day when balancing, the task's own otherwise), so the bound of C03_forward / C03_backward is a bound on what
+   `reserved` of this code reports.  [rows_of l]: the rows in the order of reservation, dated by midnights. *)
+From PJ Require Import gen.SrcSched Sched.SrcSchedEquiv.
+
+Theorem C03_src_reserved_all : forall l r t, src_reserved (rows_of l) r t None = Ok (booked l r (day_of t)).
+Proof. exact src_reserved_all_eq. Qed.
+
+Theorem C03_src_reserved_task : forall l r t k, src_reserved (rows_of l) r t (Some k) = Ok (booked_t l r (day_of t) k).
+Proof. exact src_reserved_task_eq. Qed.
+
+Theorem C03_src_reserved_used : forall (balance : bool) l r t k,
+  src_reserved (rows_of l) r t (if balance then None else Some k) = Ok (used balance l r (day_of t) k).
+Proof. exact src_reserved_used_eq. Qed.
+
 Print Assumptions C03_forward.
 Print Assumptions C03_backward.
 Print Assumptions C03_oracle_meaning.
@@ -266,3 +284,6 @@ Print Assumptions C03_captie_cap_nonneg.
 Print Assumptions C03_captie_model_nonneg.
 Print Assumptions C03_captie_model_any_time.
 Print Assumptions C03_captie_example.
+Print Assumptions C03_src_reserved_all.
+Print Assumptions C03_src_reserved_task.
+Print Assumptions C03_src_reserved_used.
